@@ -3,6 +3,7 @@ package main
 import (
 	"fmt"
 	"math/rand"
+	"net/url"
 	"strings"
 	"time"
 
@@ -78,7 +79,18 @@ var provTemplates = []struct {
 	{"go-pointer-param-write", "setp(%s, 5)\n[*vptr, readp(vptr)]", false}, {"go-pointer-param-read", "*vptr = 8\nreadp(%s)", false},
 	{"go-pointer-param-twice", "setp(%s, 5)\nsetp(%s, 6)", false},
 	{"forin-list-add", "for t in [%s] { probe(t + t); probe(t * 2); probe(t - 1) }", true},
+	// one right side spread over several names, by var and by assignment
+	{"multi-var-spread", "var t, u = %s\n[t, u]", true}, {"multi-let-spread", "t, u = (%s)\n[t, u]", true}, {"multi-var-spread3", "var t, u, w = %s\nt", true},
+	{"multi-var-spread-in-func", "func() {\nvar t, u = %s\nreturn [u, t]\n}()", true},
+	// methods of Go values whose type is a named non-struct type
+	{"method-string", "%s.String()", false}, {"method-get", "%s.Get(\"k\")", false}, {"method-seconds", "%s.Seconds()", false}, {"method-value", "ms = %s.String\nms()", false},
+	{"method-encode", "%s.Encode()", false}, {"method-celsius", "%s.F()", false},
 }
+
+// provCelsius is a host-defined named non-struct type with a method.
+type provCelsius float64
+
+func (c provCelsius) F() float64 { return float64(c)*9/5 + 32 }
 
 func provValues() map[string]interface{} {
 	seven := int64(7)
@@ -89,7 +101,7 @@ func provValues() map[string]interface{} {
 		"vint": int64(3), "vfloat": 1.5, "vstr": "ab", "vbool": true, "vnil": nil, "vzero": int64(0),
 		"vlist": []interface{}{int64(1), int64(2)}, "vmap": map[interface{}]interface{}{"k": int64(1)},
 		"vgofn": func(x ...interface{}) int64 { return int64(len(x)) },
-		"vchan": ch, "vptr": &seven, "vone": int64(1), "vbig": int64(9007199254740993), "vbig0": int64(9007199254740992),
+		"vchan": ch, "vptr": &seven, "vdur": 1500 * time.Nanosecond, "vurl": url.Values{"k": {"v"}}, "vcel": provCelsius(100), "vone": int64(1), "vbig": int64(9007199254740993), "vbig0": int64(9007199254740992),
 	}
 }
 
@@ -98,7 +110,7 @@ func streamProv(o *Out, r *rand.Rand, n int, thorough bool) {
 		"delete, element assignment, channel ops, deref, conversion to Go parameters) x operand values (int, float, string, bool, nil, list, map, script and Go functions, " +
 		"channel, pointer) x provenance chains of length 1-3 (element, map entry, member, script call, script argument, Go call returning interface{}, parentheses, ?:, ??, " +
 		"multi-return element, variadic tail); oracle: outcome must equal the same template on the plain variable; F0 templates also through the model; distinct by request hash"
-	valNames := []string{"vint", "vfloat", "vstr", "vbool", "vnil", "vzero", "vlist", "vmap", "vfn", "vgofn", "vchan", "vptr", "vone", "vbig", "vbig0"}
+	valNames := []string{"vint", "vfloat", "vstr", "vbool", "vnil", "vzero", "vlist", "vmap", "vfn", "vgofn", "vchan", "vptr", "vone", "vbig", "vbig0", "vdur", "vurl", "vcel"}
 	run := func(src string) (vmResult, bool) {
 		stmt, err := parser.ParseSrc(src)
 		if err != nil {
@@ -218,7 +230,6 @@ func streamProv(o *Out, r *rand.Rand, n int, thorough bool) {
 		}
 	}
 }
-
 
 // fillTemplate puts the operand into every %s of the template (%% is a literal percent sign)
 func fillTemplate(t, x string) string {
